@@ -135,10 +135,12 @@ template <class Alg> void run_job(const Plan &p, const std::vector<EventData> &e
     if (!sc.isSuccess()) { out() << "INIT FAILURE\n"; return; }
   } catch (std::exception &e) { out() << "INIT THROW " << hex(e.what()) << "\n"; return; }
   trees().schema();
+  int vm_prev = -1;
   for (int ei : p.events) {
     store().set(&evs.at(ei));
     out() << "BEGIN " << ei << "\n"; out().flush();
     try {
+      scribble(vm_prev); vm_prev = ei;      // what an uninitialised local of the event code finds depends on the event before
       StatusCode sc = alg.execute();
       if (sc.isSuccess()) out() << "END ok\n";
       else { out() << "END FAILURE\n"; break; }
